@@ -75,17 +75,30 @@ def rule_modes(chk: Check, model, rid: str):
         el = ("elem", l.iter, l.uid)
         graphs = r.attr("self", "_graphs")
         ok = (l.iter == graphs and g_ep == el) or (l.iter == T.mk_call("range", [T.mk_call("len", [graphs])]) and g_ep == T.mk_index(graphs, el))
+    if not app and gl[0] == "comp" and gl[1] == "list" and len(gl[3]) == 1 and not gl[4] and T.call_name(gl[2]) == "rex.utils.to_networkx_graph" and gl[2][2]:
+        # ... or built in one expression, [to_networkx_graph(g, ...) for g in <the graphs, in order>] (possibly through map / a generator)
+        graphs = r.attr("self", "_graphs")
+        g_ep, it_ = gl[2][2][0], gl[3][0][1]
+        els = [x for x in T.walk(g_ep) if x[0] == "elem" and x[1] == it_]
+        for _ in range(3):
+            if it_[0] == "comp" and it_[1] in ("gen", "list") and len(it_[3]) == 1 and not it_[4] and els:
+                g_ep = T.subst(g_ep, {els[0]: it_[2]})
+                it_ = it_[3][0][1]
+                els = [x for x in T.walk(g_ep) if x[0] == "elem" and x[1] == it_]
+        ok = bool(els) and ((it_ == graphs and g_ep == els[0]) or (it_ == T.mk_call("range", [T.mk_call("len", [graphs])]) and g_ep == T.mk_index(graphs, els[0])))
+        app = [None]
     reorder = [e for e in r.events if e.kind == "call" and e.func == fi.qualname and (
         (e.recv == gl and e.name.rsplit(".", 1)[-1] in ("sort", "reverse", "insert", "pop", "remove", "clear", "extend")) or
         (e.name.rsplit(".", 1)[-1] in ("shuffle",) and gl in e.args))]
     chk.add(rid, "episode order: the networkx graphs are built per episode, in order, and not reordered", bool(ok) and not reorder,
             f"self._Gs is filled by {len(app)} append(s){' and then changed by ' + reorder[0].name if reorder else ''}: to_timings pairs entry i with episode i of the windowed graphs", chk.loc(fi, reorder[0].node if reorder else None))
     tt = [e for e in r.events if e.kind == "call" and e.name == "rex.utils.to_timings"]
-    ok = len(tt) == 1 and len(tt[0].args) == 5 and tt[0].args[0] == r.attr("self", "_windowed_graphs") and tt[0].args[2] == r.attr("self", "_Gs") and tt[0].args[4] == S("supervisor.name")
+    bt = model.bind_call("utils.to_timings", tt[0].args, tt[0].kwargs) if len(tt) == 1 else {}  # (arguments by parameter, however they were passed)
+    ok = len(tt) == 1 and len(bt) == 5 and bt.get("graphs") == r.attr("self", "_windowed_graphs") and bt.get("Gs") == r.attr("self", "_Gs") and bt.get("supervisor") == S("supervisor.name")
     if ok:
         for m in members:
             val = {mode: S(f"rex.constants.Supergraph.{m}")}
-            ok = ok and T.subst(tt[0].args[1], val) == T.subst(r.attr("self", "_S"), val) and T.subst(tt[0].args[3], val) == T.subst(r.attr("self", "_Gs_monomorphism"), val)
+            ok = ok and T.subst(bt["S"], val) == T.subst(r.attr("self", "_S"), val) and T.subst(bt["Gs_monomorphism"], val) == T.subst(r.attr("self", "_Gs_monomorphism"), val)
     chk.add(rid, "to_timings inputs", ok, "to_timings must get (windowed graphs, S, Gs, Gs_monomorphism, supervisor name) of the chosen mode", chk.loc(fi))
     aw = [e for e in r.events if e.kind == "call" and e.name == "rex.utils.apply_window"]
     nx = [e for e in r.events if e.kind == "call" and e.name == "rex.utils.to_networkx_graph"]
